@@ -102,6 +102,8 @@ type Machine struct {
 	funcsSeen  map[*ssa.Function]bool
 	events     []event
 	recording  bool
+	intrCache  map[*ssa.Function]intrinsic
+	noFloatLift bool
 	outstanding []*asyncJob
 	unknownLabels []string
 
@@ -419,6 +421,7 @@ func (m *Machine) event(kind string, obj *value, val value) {
 // ---- asynchronous assertion checking ----
 
 type asyncJob struct {
+	tt      *TermTable
 	pc      []*Term
 	neg     *Term
 	finding Finding
@@ -478,6 +481,10 @@ func runAsyncJob(solver *Solver, job *asyncJob) (out asyncResult) {
 			out = asyncResult{res: Unknown}
 		}
 	}()
+	if solver.owner != job.tt {
+		solver.Reset()
+		solver.owner = job.tt
+	}
 	solver.PopAll()
 	solver.Push()
 	for _, t := range job.pc {
@@ -513,6 +520,7 @@ func (p *asyncPool) close() {
 
 func (m *Machine) submitAsync(neg *Term, label string) {
 	job := &asyncJob{
+		tt:     m.tt,
 		pc:     append([]*Term(nil), m.pc...),
 		neg:    neg,
 		inputs: append([]InputRec(nil), m.inputs...),
